@@ -6,6 +6,7 @@ Lean acceptor (drivers/C02.lean) which replays it on the proved transition syste
 """
 import json
 import os
+import weakref
 
 from harness import core, sched
 
@@ -40,7 +41,7 @@ def gen_program(rng, nthreads=None, maxops=None, kinds=None):
     nthreads = nthreads or rng.range(2, 3)
     nh = rng.range(1, 3)
     kinds = kinds or ["log", "log", "log", "add", "remove", "remove", "removeall", "level", "newlevel", "enable",
-                      "disable"]
+                      "disable", "complete", "configure"]
     threads = []
     custom = []          # run-time levels created by this program (each at most once)
     for t in range(nthreads):
@@ -59,11 +60,25 @@ def gen_program(rng, nthreads=None, maxops=None, kinds=None):
                 custom.append(name)
                 ops.append(["newlevel", name, rng.choice([15, 25, 45]), rng.choice(["<red>", "<blue><bold>", ""])])
             elif k == "remove":
-                ops.append(["remove", rng.below(nh + 1)])
+                # mostly an initial handler; sometimes an id that only exists once another thread's add() has run
+                ops.append(["remove", rng.below(nh + 1) if rng.chance(75) else nh + rng.below(3)])
+            elif k == "configure":
+                # configure() without handlers/activation: a sequence of lock-taking updates (an existing level's
+                # colour, the default extra, the patcher)
+                cfg = {}
+                if rng.chance(60):
+                    cfg["levels"] = [{"name": "INFO", "color": rng.choice(["<red>", "<blue>"])}]
+                if rng.chance(70):
+                    cfg["extra"] = {"k": rng.below(3)}
+                if rng.chance(50) or not cfg:
+                    cfg["patcher"] = 1
+                ops.append(["configure", cfg])
             elif k == "removeall":
                 ops.append(["removeall"])
             elif k == "level":
                 ops.append(["level", "INFO", rng.choice(["<red>", "<blue>"])])
+            elif k in ("complete", "fork"):
+                ops.append([k])
             else:
                 ops.append([k, rng.choice(["m", "m.a", "", "n", "m", None])])
         threads.append(ops)
@@ -107,6 +122,10 @@ def _mk_log_fn(logger, module):
     return ns["f"]
 
 
+def _noop_patcher(record):
+    return None
+
+
 def emulated_fork(s, sinks, streams=()):
     """os.fork() as the at-fork hooks see it: the REAL acquire_locks / release_locks of
     loguru._locks_machinery run in the calling thread; at the fork point the child's memory is inspected:
@@ -118,7 +137,9 @@ def emulated_fork(s, sinks, streams=()):
     s.log_event("forked", "", "")
     bad = []
     for name in ("logger_locks", "handler_locks", "queue_locks"):
-        for lk in list(getattr(lm, name, ())):
+        ws = getattr(lm, name, ())
+        # the inspection itself must not show up as a pass of a hook in the trace
+        for lk in (list(weakref.WeakSet.__iter__(ws)) if isinstance(ws, weakref.WeakSet) else list(ws)):
             if getattr(lk, "owner", me) != me:
                 bad.append("%s %s is held by %r at the fork point" % (name, lk.name(), lk.owner))
     for hid, snk in sinks.items():
@@ -133,6 +154,96 @@ def emulated_fork(s, sinks, streams=()):
     return bad or "ok"
 
 
+class TracedLockSet(weakref.WeakSet):
+    """stands in for `_locks_machinery.logger_locks / handler_locks / queue_locks` during a scheduled run: every
+    registration and the begin / end of every iteration (a pass of an at-fork hook) are recorded in the trace"""
+
+    def __init__(self, tname):
+        super().__init__()
+        self.tname = tname
+
+    def add(self, item):
+        super().add(item)
+        s = sched.S()
+        if s is not None and s.me() is not None:
+            s.log_event("lockreg", self.tname, len(self))
+
+    def __iter__(self):
+        s = sched.S()
+        traced = s is not None and s.me() is not None
+        if traced:
+            s.log_event("iterbegin", self.tname, len(self))
+        for x in super().__iter__():
+            yield x
+        if traced:
+            s.log_event("iterend", self.tname, len(self))
+
+
+class HookTracing:
+    """installs the traced weak sets for one run (after sched.Env has emptied the real ones)"""
+
+    NAMES = ("logger_locks", "handler_locks", "queue_locks")
+
+    def __enter__(self):
+        import loguru._locks_machinery as lm
+        self.saved = {}
+        for n in self.NAMES:
+            if isinstance(getattr(lm, n, None), weakref.WeakSet):
+                self.saved[n] = getattr(lm, n)
+                setattr(lm, n, TracedLockSet(n))
+        return self
+
+    def __exit__(self, *a):
+        import loguru._locks_machinery as lm
+        for n, v in self.saved.items():
+            setattr(lm, n, v)
+
+
+class FillDict(dict):
+    """the dict published as `core.enabled`, with the lock-free cache fill `enabled[name] = status` of `_log` as a
+    scheduling point of its own (programs carrying "fine": the window between reading the activation state and
+    filling the cache is then a place where a whole enable()/disable() of another thread can be scheduled)"""
+
+    def __setitem__(self, k, v):
+        s = sched.S()
+        if s is not None and s.me() is not None:
+            s.point("Wreq", "core.enabled[]", repr(k))
+        super().__setitem__(k, v)
+        if s is not None and s.me() is not None:
+            s.log_event("Wfill", "core.enabled[]", repr(k))     # logged when the store has taken effect
+
+    def copy(self):
+        return dict(self)
+
+
+class FineCore(sched.TCore):
+    def __init__(self, *a, **kw):
+        super().__init__(*a, **kw)
+        object.__setattr__(self, "enabled", FillDict(object.__getattribute__(self, "enabled")))
+
+    def __setattr__(self, k, v):
+        if k == "enabled" and not isinstance(v, FillDict):
+            v = FillDict(v)
+        super().__setattr__(k, v)
+
+
+def window_chooser(a, k, b):
+    """run thread `a` up to its k-th scheduling point, then thread `b` for as long as it can run (its whole
+    program when nothing blocks it), then whoever ran last; `reached` tells whether `a` had k points at all"""
+    st = {"n": 0}
+
+    def choose(r, s):
+        if st["n"] < k and a in r:
+            st["n"] += 1
+            return a
+        if st["n"] >= k and b in r:
+            return b
+        return s.last if s.last in r else r[0]
+
+    choose.state = st
+    return choose
+
+
 class Run:
     def __init__(self, program, chooser, max_events=20000):
         self.program = program
@@ -141,8 +252,9 @@ class Run:
 
     def execute(self):
         prog = self.program
-        with sched.Env():
-            logger = sched.make_logger()
+        with sched.Env(), HookTracing() as hooks:
+            self.hook_sets = [n for n in hooks.saved if n != "logger_locks"]
+            logger = sched.make_logger(FineCore() if prog.get("fine") else None)
             sinks = {}
             ids = []
             for i, lvl in enumerate(prog["handlers"]):
@@ -193,6 +305,13 @@ class Run:
                                 logger.enable(op[1])
                             elif op[0] == "disable":
                                 logger.disable(op[1])
+                            elif op[0] == "complete":
+                                logger.complete()
+                            elif op[0] == "configure":
+                                kw = dict(op[1])
+                                if "patcher" in kw:
+                                    kw["patcher"] = _noop_patcher
+                                logger.configure(**kw)
                             elif op[0] == "fork":
                                 res = emulated_fork(s, sinks)
                         finally:
@@ -410,8 +529,9 @@ def run(ctx):
         elif len(drv_lines) < ctx.n(60000, 600000):
             lines = acceptor_lines(r)
             if lines is not None:
+                from harness import c02_trace
                 drv_lines.extend(lines)
-                drv_meta.append((program, list(s.choices), len(lines)))
+                drv_meta.append((program, list(s.choices), len(lines), c02_trace.run_info(r, levelno, hspec, LEVELNO)))
         if not bad and len(act_lines) < ctx.n(40000, 400000) and any(
                 op[0] in ("enable", "disable") for ops in program["threads"] for op in ops):
             from harness import c02_trace
@@ -436,6 +556,52 @@ def run(ctx):
             r = Run(c["program"], sched.replay_chooser(c["schedule"])).execute()
             judge(r, c["schedule"], c["program"], "corpus")
 
+    # threshold races: the derived shared value `min_level` is recomputed by every add()/remove(); two of them racing,
+    # followed by a log at the lowest level after both have returned (a lost update would swallow the message)
+    for mi in range(ctx.n(4, 16) * boost):
+        if boost > 1 and nviol[0]:
+            break
+        r0 = rng.fork("min%d" % mi)
+        second = r0.choice([["add", "INFO"], ["add", "INFO:c"], ["remove", 0], ["add", "DEBUG"], ["removeall"]])
+        first = ["add", r0.choice(["DEBUG", "DEBUG:c"])]
+        lg = ["log", r0.choice(MODULES), "DEBUG"]
+        prog = {"handlers": [r0.choice(["INFO", "INFO:c"])],
+                "threads": [[first], [second], [lg, lg] if r0.chance(50) else [lg]]}
+        dfs_schedules(prog, bound=2, limit=ctx.n(60, 400) * (8 if boost > 1 else 1),
+                      on_run=lambda r, pre_, prog=prog: judge(r, pre_, prog, "dfs-minlevel"))
+    # a COMPLETE enable()/disable() inside every window of a cache-MISS log call (the first call of that module - or of
+    # the anonymous module - on the core), for every kind of name (None, '', a parent, the module itself); the calls
+    # made AFTER the change has returned are then judged (a stale status filled into a dict that is still published
+    # would be hit by them).  Directed: one run per scheduling point of the missing call, the cache fill included.
+    pairs = [(nm, md) for nm in (None, "", "m", "m.a", "n") for md in MODULES + [ANON] if names(nm, md)]
+    rw = rng.fork("misswin")
+    if ctx.quick and boost == 1:
+        chosen = [(None, ANON)] + [rw.choice([p for p in pairs if p[0] == nm]) for nm in ("", "m", rw.choice(["m.a", "n"]))]
+    else:
+        chosen = pairs
+    for (name, mod) in chosen:
+        for kind in (["disable", "enable"] if (not ctx.quick or boost > 1) else [rw.choice(["disable", "disable", "enable"])]):
+            if boost > 1 and nviol[0]:
+                break
+            pre = [["disable", name]] if kind == "enable" else []
+            prog = {"handlers": ["DEBUG"], "fine": 1,
+                    "threads": [[[kind, name]], [["log", mod, "INFO"], ["log", mod, "INFO"]], [["log", mod, "INFO"]]]}
+            if pre:
+                # the module starts disabled: done by a thread of its own that finishes before anything else runs
+                prog["threads"].append(pre)
+            k = 0
+            while k < 80:
+                ch = window_chooser("t1", k, "t0")
+                if pre:
+                    inner = ch
+
+                    def ch(r, s_, inner=inner):
+                        return "t3" if "t3" in r else inner(r, s_)
+                r = Run(prog, ch).execute()
+                judge(r, None, prog, "miss-window")
+                if (inner if pre else ch).state["n"] < k:
+                    break          # the missing call has fewer scheduling points than k: every window has been tried
+                k += 1
     # activation races: a change of the rule set against the FIRST log of a module (cache miss) followed by a
     # second log of the same module after the change has returned (the stale entry, if any, is then hit)
     for ai in range(ctx.n(6, 30) * boost):
@@ -487,7 +653,7 @@ def run(ctx):
         if boost > 1 and nviol[0]:
             break          # enlarged search after a broken obligation: a failing input has been found
         r2 = rng.fork("r%d" % i)
-        prog = gen_program(r2, maxops=3)
+        prog = gen_program(r2, maxops=3, nthreads=r2.range(2, 4))
         r = Run(prog, sched.random_chooser(r2, switch_pct=r2.choice([15, 35, 60]))).execute()
         judge(r, None, prog, "random")
 
@@ -495,7 +661,8 @@ def run(ctx):
     if drv_lines:
         out = core.Driver(DRIVER).run(drv_lines)
         pos = 0
-        for program, schedule, n in drv_meta:
+        from harness import c02_trace
+        for program, schedule, n, info in drv_meta:
             chunk = out[pos:pos + n]
             pos += n
             ctx.traces_validated += 1
@@ -507,13 +674,26 @@ def run(ctx):
                           "event %d %r rejected: %s\nprogram=%s schedule=%s"
                           % (i, drv_lines[pos - n + i], o, json.dumps(program), json.dumps(schedule)))
                 break
+            # the model's bookkeeping of every returned call (exactly_once_if_stable / snapshot_partition) against
+            # what the real sinks received
+            dis, ncalls = c02_trace.ret_judge(info, chunk)
+            ctx.stat("delivery_calls_compared", ncalls)
+            if dis:
+                ctx.stat("delivery_disagreements")
+                ctx.broke("correspondence Conc.delivery",
+                          "%s\nprogram=%s schedule=%s" % (dis[0], json.dumps(program), json.dumps(schedule)))
+                break
         ctx.stat("acceptor_events", len(drv_lines))
 
     # second acceptor: the activation-related accesses, projected on one module name, replayed on Activation.step;
     # the model's hit/miss and the rule-set version each call used are compared with what the real call did
     if act_lines:
         from harness import c02_trace
-        out = core.Driver("C02act").run(act_lines)
+        try:
+            out = core.Driver("C02act").run(act_lines)
+        except core.DriverError as e:
+            ctx.broke("driver:C02act", str(e)[-1500:])
+            out, act_meta = [], []
         pos = 0
         for program, schedule, mod, (lines, meta, rules) in act_meta:
             chunk = out[pos:pos + len(lines)]
@@ -532,7 +712,11 @@ def run(ctx):
     # third acceptor: the level-table accesses replayed on Levels.step
     if lvl_lines:
         from harness import c02_trace
-        out = core.Driver("C02lvl").run(lvl_lines)
+        try:
+            out = core.Driver("C02lvl").run(lvl_lines)
+        except core.DriverError as e:
+            ctx.broke("driver:C02lvl", str(e)[-1500:])
+            out, lvl_meta = [], []
         pos = 0
         for program, schedule, (lines, meta) in lvl_meta:
             chunk = out[pos:pos + len(lines)]
